@@ -30,7 +30,7 @@ ANCHORS = ("Quantity.__new__", "Quantity.__mul__", "Quantity.__truediv__",
 
 OPS = ["ctor", "ctor", "ctor-str", "ctor-type-str", "mul", "rmul", "div",
        "add", "sub", "neg", "abs", "convert", "round", "quantize", "numunit",
-       "unitdiv", "prod", "pow1", "rdiv"]
+       "unitdiv", "prod", "pow1", "rdiv", "pown"]
 
 
 def tie_amount(rng, q):
@@ -138,6 +138,35 @@ def quant_sub(chk, rng, w, wid, mode, plan=None, tvar=None, ops=OPS):
         elif op == "unitdiv":
             body.append({"k": "r", "e": OP("/", U(ua), num(k))})
             expect = lambda st: (1 / k, ua)             # noqa: E731
+        elif op == "pown":
+            # unit ** n evaluated first, then quantity ** n, into a quantized
+            # type: the second must still be rounded once
+            done = False
+            allu = list(w.units)
+            rng.shuffle(allu)
+            for s1 in allu:
+                for n in (2, -1, 3, -2):
+                    pred = w.predict_pow(("u", s1), n)
+                    if pred["kind"] == "qty" and \
+                            w.types[pred["type"]].quantum is not None:
+                        x1 = rand_fraction(rng, small=True, allow_zero=False)
+                        f1 = w.units[s1].factor
+                        first = {"k": "u", "e": OP("**", U(s1), ["i", n])}
+                        body = [{"id": "a", "k": "a", "e": Q(num(x1), s1)},
+                                {"k": "r", "e": OP("**", V("a"), ["i", n])}]
+                        if rng.random() < 0.6:
+                            body.insert(0, first)
+                        expect = (lambda st, n=n, f1=f1:
+                                  ((st["a"] * f1) ** n, None))
+                        info.update(s1=s1, n=n)
+                        done = True
+                        break
+                if done:
+                    break
+            if not done:
+                op = info["op"] = "mul"
+                body.append({"k": "r", "e": OP("*", V("a"), num(k))})
+                expect = lambda st: (st["a"] * k, ua)   # noqa: E731
         elif op == "rdiv":
             # number / unit and number / quantity landing in a quantized type
             done = False
@@ -441,7 +470,8 @@ def run(chk, R, tier, seed):
     nw = 100 if tier == "quick" else 1200
     cases = []
     for wi in range(nw):
-        plan, ww = random_plan(rng, noref=False, force_quantum=True)
+        plan, ww = random_plan(rng, noref=False, force_quantum=True,
+                               power_type=(wi % 2 == 0))
         if not any(ww.quantum_of(s) is not None for s in ww.units):
             continue
         planj = [d.to_json() for d in plan]
